@@ -92,7 +92,8 @@ class Translate(Domain):
         # domain_bounds are in shape [x_min, x_max, y_min, y_max, ...]
         # both min and max have to be shifted by the same value
         new_bounds = domain_bounds + translation_values
-        return new_bounds
+        # one parameter row (or none): flat box like every other domain returns
+        return new_bounds.squeeze(0)
 
     @property
     def boundary(self):
